@@ -1,5 +1,5 @@
 (* C04: proofs that the location model agrees with the set-of-bases semantics. *)
-From ASV Require Import Loc.
+From ASV.C04 Require Import Model.
 From Coq Require Import ZifyBool.
 
 (* ---------- semantics ---------- *)
@@ -81,7 +81,6 @@ Qed.
 
 (* ---------- distance, single parts ---------- *)
 (* the number of bases strictly between two disjoint intervals on a line *)
-Definition gap (a b : part) : Z := if pe a <=? ps b then ps b - pe a else ps a - pe b.
 
 Lemma lmin4 a b c d : lmin [a; b; c; d] = Z.min (Z.min (Z.min a b) c) d.
 Proof. reflexivity. Qed.
@@ -100,8 +99,6 @@ Proof.
 Qed.
 
 (* on a ring of length N: the gap the other way round *)
-Definition wrap_gap (N : Z) (a b : part) : Z :=
-  if pe a <=? ps b then ps a + N - pe b else ps b + N - pe a.
 
 Lemma mod_small_eq x N : 0 <= x < N -> x mod N = x.
 Proof. intros. apply Z.mod_small. assumption. Qed.
@@ -455,7 +452,6 @@ Proof.
   rewrite existsb_exists. exists q. auto.
 Qed.
 
-Definition between_ring (N : Z) (p q : part) : Z := Z.min (wrap_gap N p q) (gap p q).
 
 Lemma dist_ring_spec N a b :
   a <> [] -> b <> [] -> Forall wf_part a -> Forall wf_part b -> in_record N a -> in_record N b ->
@@ -527,4 +523,821 @@ Proof.
   rewrite andb_false_r. cbn [ps pe pst].
   destruct (Z.min (pe p + d) N <? Z.max 0 (ps p - d)) eqn:E2; [lia|].
   cbn [bind removelast app length merge_ends last_opt rev]. reflexivity.
+Qed.
+
+(* ====================================================================================
+   Soundness of the decidable specifications of Model.v (boolean verdict -> Prop).
+   ==================================================================================== *)
+Lemma zrange_n_spec n : forall a x, In x (zrange_n a n) <-> a <= x < a + Z.of_nat n.
+Proof.
+  induction n as [|n IH]; intros a x.
+  - simpl. lia.
+  - cbn [zrange_n In]. rewrite IH. lia.
+Qed.
+
+Lemma zrange_spec a n x : In x (zrange a n) <-> a <= x < a + n.
+Proof.
+  unfold zrange. rewrite zrange_n_spec. destruct (Z_le_gt_dec 0 n).
+  - rewrite Z2Nat.id by assumption. reflexivity.
+  - replace (Z.to_nat n) with 0%nat by lia. simpl. lia.
+Qed.
+
+Lemma forallb_zrange f a n : forallb f (zrange a n) = true <-> forall x, a <= x < a + n -> f x = true.
+Proof.
+  rewrite forallb_forall. split; intros H x Hx; apply H; apply zrange_spec; assumption.
+Qed.
+
+Lemma existsb_zrange f a n : existsb f (zrange a n) = true <-> exists x, a <= x < a + n /\ f x = true.
+Proof.
+  rewrite existsb_exists. split; intros [x [H1 H2]]; exists x; split; try assumption; apply zrange_spec; assumption.
+Qed.
+
+Lemma base_in_hull l x : base_of l x -> lstart l <= x < lend l.
+Proof.
+  intros [p [Hp Hx]]. unfold lstart, lend.
+  assert (lmin (map ps l) <= ps p) by (apply lmin_le; apply in_map; assumption).
+  assert (pe p <= lmax (map pe l)) by (apply lmax_ge; apply in_map; assumption).
+  lia.
+Qed.
+
+Lemma share_base_spec a b : share_base a b = true <-> exists x, base_of a x /\ base_of b x.
+Proof.
+  unfold share_base. rewrite existsb_zrange. split.
+  - intros [x [_ H]]. apply andb_true_iff in H. destruct H as [H1 H2].
+    exists x. split; apply in_loc_spec; assumption.
+  - intros [x [Ha Hb]]. exists x. split.
+    + pose proof (base_in_hull a x Ha). lia.
+    + apply andb_true_iff. split; apply in_loc_spec; assumption.
+Qed.
+
+Lemma eqb_true_iff_l (o b : bool) : Bool.eqb o b = true -> (o = true <-> b = true).
+Proof. destruct o, b; simpl; intros H; try discriminate; tauto. Qed.
+
+Lemma ok_overlap_sound a b out : ok_overlap a b out = true ->
+  (out = true <-> exists x, base_of a x /\ base_of b x).
+Proof. intros H. apply eqb_true_iff_l in H. rewrite H. apply share_base_spec. Qed.
+
+Lemma partwise_inside_spec o i : partwise_inside o i = true <->
+  Forall (fun ip => exists op, In op o /\ ps op <= ps ip /\ pe ip <= pe op) i.
+Proof.
+  unfold partwise_inside. rewrite forallb_forall, Forall_forall.
+  split; intros H ip Hip; specialize (H ip Hip).
+  - rewrite existsb_exists in H. destruct H as [op [Hop H]]. exists op. split; [assumption|lia].
+  - rewrite existsb_exists. destruct H as [op [Hop H]]. exists op. split; [assumption|lia].
+Qed.
+
+Lemma ok_contains_sound o i out : ok_contains o i out = true ->
+  (out = true <-> Forall (fun ip => exists op, In op o /\ ps op <= ps ip /\ pe ip <= pe op) i).
+Proof. intros H. apply eqb_true_iff_l in H. rewrite H. apply partwise_inside_spec. Qed.
+
+(* the implementation-independent reading of the model's own theorem: the specification accepts
+   exactly the value the set-of-bases reading prescribes *)
+Definition between_dists (a b : loc) (w : option Z) : list Z :=
+  flat_map (fun p => map (fun q => between w p q) b) a.
+
+Lemma in_between_dists a b w d :
+  In d (between_dists a b w) <-> exists p q, In p a /\ In q b /\ d = between w p q.
+Proof.
+  unfold between_dists. rewrite in_flat_map. split.
+  - intros [p [Hp H]]. apply in_map_iff in H. destruct H as [q [Hq H]]. exists p, q. auto.
+  - intros [p [q [Hp [Hq ->]]]]. exists p. split; [assumption|]. apply in_map_iff. exists q. auto.
+Qed.
+
+Lemma ok_dist_sound a b w out : a <> [] -> b <> [] -> ok_dist a b w out = true ->
+  ((exists x, base_of a x /\ base_of b x) -> out = 0) /\
+  (~ (exists x, base_of a x /\ base_of b x) ->
+     (forall p q, In p a -> In q b -> out <= between w p q) /\
+     (exists p q, In p a /\ In q b /\ out = between w p q)).
+Proof.
+  intros Hna Hnb H. unfold ok_dist, expected_dist in H. apply Z.eqb_eq in H.
+  split.
+  - intros Hs. apply share_base_spec in Hs. rewrite Hs in H. assumption.
+  - intros Hs. destruct (share_base a b) eqn:E.
+    + exfalso. apply Hs. apply share_base_spec. assumption.
+    + fold (between_dists a b w) in H. subst out. split.
+      * intros p q Hp Hq. apply lmin_le. apply in_between_dists. exists p, q. auto.
+      * assert (Hne : between_dists a b w <> []).
+        { destruct a as [|p a']; [congruence|]. destruct b as [|q b']; [congruence|]. discriminate. }
+        pose proof (lmin_in _ Hne) as Hin. apply in_between_dists in Hin.
+        destruct Hin as [p [q [Hp [Hq E']]]]. exists p, q. auto.
+Qed.
+
+(* ---- connect ---- *)
+Definition is_span (N : Z) (r : loc) : Prop :=
+  (exists p, r = [p] /\ 0 <= ps p < pe p /\ pe p <= N) \/
+  (exists p q, r = [p; q] /\ 0 <= ps p < pe p /\ pe p = N /\ ps q = 0 /\ 0 < pe q /\ pe q <= ps p).
+
+Lemma wf_partb_spec N p : wf_partb N p = true <-> 0 <= ps p /\ ps p < pe p /\ pe p <= N.
+Proof. unfold wf_partb. lia. Qed.
+
+Lemma is_spanb_sound N r : is_spanb N r = true -> is_span N r.
+Proof.
+  unfold is_spanb, is_span. destruct r as [|p [|q [|x r]]]; try discriminate.
+  - intros H. apply wf_partb_spec in H. left. exists p. split; [reflexivity|lia].
+  - intros H. right. exists p, q. unfold wf_partb in H. split; [reflexivity|lia].
+Qed.
+
+Lemma covers_part_spec r p : covers_part r p = true <-> forall x, ps p <= x < pe p -> base_of r x.
+Proof.
+  unfold covers_part. rewrite forallb_zrange. split; intros H x Hx.
+  - apply in_loc_spec. apply H. lia.
+  - apply in_loc_spec. apply H. lia.
+Qed.
+
+Lemma in_all_parts locs p : In p (all_parts locs) <-> exists l, In l locs /\ In p l.
+Proof.
+  unfold all_parts. rewrite in_concat. split; intros [l [H1 H2]]; exists l; auto.
+Qed.
+
+Lemma covers_all_sound r locs : covers_all r locs = true ->
+  forall l x, In l locs -> base_of l x -> base_of r x.
+Proof.
+  unfold covers_all. rewrite forallb_forall. intros H l x Hl [p [Hp Hx]].
+  assert (Hc : covers_part r p = true) by (apply H; apply in_all_parts; exists l; auto).
+  rewrite covers_part_spec in Hc. apply Hc. assumption.
+Qed.
+
+Definition arc (N s len x : Z) : Prop := (x - s) mod N < len.
+
+Lemma no_shorter_arc_sound N r locs : no_shorter_arc N r locs = true ->
+  (exists l x, In l locs /\ 0 <= x < N /\ base_of l x) ->
+  forall s len, 0 <= s < N -> 2 * len < N ->
+    (forall l x, In l locs -> 0 <= x < N -> base_of l x -> arc N s len x) -> llen r <= len.
+Proof.
+  unfold no_shorter_arc. intros H Hsome s len Hs Hlen Hcov.
+  destruct (Z_le_gt_dec (llen r) len) as [|Hgt]; [assumption|exfalso].
+  assert (HN : 0 < N) by lia.
+  assert (Hhalf : len <= (N - 1) / 2).
+  { apply Z.div_le_lower_bound; lia. }
+  set (L := Z.min (llen r - 1) ((N - 1) / 2)) in *.
+  assert (HL : len <= L) by lia.
+  destruct (L <? 1) eqn:EL.
+  - (* L < 1: then len <= 0 and an arc of length <= 0 covers nothing, so there is no input base;
+       the result is still claimed longer: only possible if no base at all - but then any s works *)
+    assert (len <= 0) by lia.
+    (* the arc of non-positive length covers no base *)
+    assert (Hnone : forall l x, In l locs -> 0 <= x < N -> base_of l x -> False).
+    { intros l x Hl Hx Hb. specialize (Hcov l x Hl Hx Hb). unfold arc in Hcov.
+      pose proof (Z.mod_pos_bound (x - s) N HN). lia. }
+    destruct Hsome as [l [x [Hl [Hx Hb]]]]. exact (Hnone l x Hl Hx Hb).
+  - rewrite forallb_zrange in H. specialize (H s ltac:(lia)).
+    apply negb_true_iff in H.
+    assert (Hall : forallb (on_arc N s L) (input_bases N locs) = true); [|congruence].
+    apply forallb_forall. intros x Hx. unfold input_bases in Hx. apply filter_In in Hx.
+    destruct Hx as [Hr Hex]. apply zrange_spec in Hr. apply existsb_exists in Hex.
+    destruct Hex as [l [Hl Hin]]. apply in_loc_spec in Hin.
+    specialize (Hcov l x Hl ltac:(lia) Hin). unfold arc in Hcov. unfold on_arc. lia.
+Qed.
+
+Lemma wf_locb_spec N l : wf_locb N l = true <->
+  l <> [] /\ Forall (fun p => 0 <= ps p /\ ps p < pe p /\ pe p <= N) l.
+Proof.
+  unfold wf_locb. rewrite andb_true_iff, forallb_forall, Forall_forall. split.
+  - intros [H1 H2]. split; [destruct l; [discriminate|congruence]|].
+    intros p Hp. apply wf_partb_spec. auto.
+  - intros [H1 H2]. split; [destruct l; [congruence|reflexivity]|].
+    intros p Hp. apply wf_partb_spec. auto.
+Qed.
+
+Definition hull_len (locs : list loc) : Z :=
+  lmax (map pe (all_parts locs)) - lmin (map ps (all_parts locs)).
+
+(* what a verdict "satisfied" of the ring specification of connect_locations means *)
+Lemma check_connect_ring_sound N locs out :
+  0 < N -> locs <> [] -> Forall (fun l => wf_locb N l = true) locs ->
+  check_connect_ring N locs out = 0 ->
+  exists r, out = Ok r /\ is_span N r /\
+    (forall l x, In l locs -> base_of l x -> base_of r x) /\
+    (existsb bridges locs = false -> llen r <= hull_len locs) /\
+    (forallb (is_span_input N) locs = true -> N <= shortest_bound ->
+       forall s len, 0 <= s < N -> 2 * len < N ->
+         (forall l x, In l locs -> 0 <= x < N -> base_of l x -> arc N s len x) -> llen r <= len).
+Proof.
+  intros HN Hne Hwf H. unfold check_connect_ring in H. destruct out as [r|k].
+  2:{ destruct (forallb (is_span_input N) locs); discriminate. }
+  destruct (is_spanb N r) eqn:E1; cbn [negb] in H; [|discriminate].
+  destruct (covers_all r locs) eqn:E2; cbn [negb] in H; [|discriminate].
+  exists r. split; [reflexivity|]. split; [apply is_spanb_sound; assumption|].
+  split; [apply covers_all_sound; assumption|]. split.
+  - intros Hb. rewrite Hb in H. cbn [negb andb] in H. unfold hull_len.
+    destruct (llen r <=? lmax (map pe (all_parts locs)) - lmin (map ps (all_parts locs))) eqn:E3; [lia|discriminate].
+  - intros Hsp HNb s len Hs Hlen Hcov.
+    destruct (negb (existsb bridges locs) &&
+              negb (llen r <=? lmax (map pe (all_parts locs)) - lmin (map ps (all_parts locs)))); [discriminate|].
+    rewrite Hsp in H. assert (E4 : (N <=? shortest_bound) = true) by lia. rewrite E4 in H.
+    cbn [andb] in H. destruct (no_shorter_arc N r locs) eqn:E5; [|discriminate].
+    apply (no_shorter_arc_sound N r locs E5) with (s := s); try assumption.
+    (* some input base exists *)
+    destruct locs as [|l0 locs']; [congruence|]. inversion Hwf as [|? ? Hl0 _]; subst.
+    apply wf_locb_spec in Hl0. destruct Hl0 as [Hl0 Hparts].
+    destruct l0 as [|p0 l0']; [congruence|]. inversion Hparts as [|? ? Hp0 _]; subst.
+    exists (p0 :: l0'), (ps p0). split; [left; reflexivity|]. split; [lia|].
+    exists p0. split; [left; reflexivity|lia].
+Qed.
+
+Lemma check_connect_line_sound locs out : check_connect_line locs out = 0 ->
+  exists h, out = Ok [h] /\ ps h < pe h /\
+    ps h = lmin (map ps (all_parts locs)) /\ pe h = lmax (map pe (all_parts locs)).
+Proof.
+  unfold check_connect_line. destruct out as [r|k].
+  2:{ destruct (existsb bridges locs); discriminate. }
+  destruct r as [|h [|x r]]; try discriminate.
+  destruct (ps h <? pe h) eqn:E1; cbn [negb]; [|discriminate].
+  destruct (ps h =? lmin (map ps (all_parts locs))) eqn:E2; cbn [negb]; [|discriminate].
+  destruct (pe h =? lmax (map pe (all_parts locs))) eqn:E3; cbn [negb]; [|discriminate].
+  intros _. exists h. repeat split; lia.
+Qed.
+
+(* the hull [min start, max end) covers every base of every input *)
+Lemma line_hull_covers locs h :
+  ps h = lmin (map ps (all_parts locs)) -> pe h = lmax (map pe (all_parts locs)) ->
+  forall l x, In l locs -> base_of l x -> ps h <= x < pe h.
+Proof.
+  intros Hs He l x Hl [p [Hp Hx]].
+  assert (Hin : In p (all_parts locs)) by (apply in_all_parts; exists l; auto).
+  assert (lmin (map ps (all_parts locs)) <= ps p) by (apply lmin_le; apply in_map; assumption).
+  assert (pe p <= lmax (map pe (all_parts locs))) by (apply lmax_ge; apply in_map; assumption).
+  lia.
+Qed.
+
+(* ---- offset ---- *)
+Fixpoint pairwise_disjoint (l : list part) : Prop :=
+  match l with
+  | [] => True
+  | p :: r => Forall (fun q => pe p <= ps q \/ pe q <= ps p) r /\ pairwise_disjoint r
+  end.
+
+Lemma disjoint_parts_spec l : disjoint_parts l = true <-> pairwise_disjoint l.
+Proof.
+  induction l as [|p r IH]; simpl; [tauto|].
+  rewrite andb_true_iff, forallb_forall, Forall_forall, IH.
+  split; intros [H1 H2]; split; try assumption; intros q Hq; specialize (H1 q Hq); lia.
+Qed.
+
+Lemma check_offset_ring_sound N a off out : check_offset_ring N a off out = 0 ->
+  exists r, out = Ok r /\
+    (r <> [] /\ Forall (fun p => 0 <= ps p /\ ps p < pe p /\ pe p <= N) r) /\
+    pairwise_disjoint r /\ llen r = llen a /\
+    (forall p0, hd_error a = Some p0 -> Forall (fun q => pst q = pst p0) r) /\
+    (forall x, 0 <= x < N -> (base_of r ((x + off) mod N) <-> base_of a x)).
+Proof.
+  unfold check_offset_ring. destruct out as [r|k]; [|discriminate].
+  destruct (wf_locb N r) eqn:E1; cbn [negb]; [|discriminate].
+  destruct (disjoint_parts r) eqn:E2; cbn [negb]; [|discriminate].
+  destruct (llen r =? llen a) eqn:E3; cbn [negb]; [|discriminate].
+  destruct (same_strands r a) eqn:E4; cbn [negb]; [|discriminate].
+  destruct (rotated_bases N off r a) eqn:E5; cbn [negb]; [|discriminate].
+  intros _. exists r. split; [reflexivity|]. split; [apply wf_locb_spec; assumption|].
+  split; [apply disjoint_parts_spec; assumption|]. split; [lia|]. split.
+  - intros p0 Hp0. destruct a as [|p a']; [discriminate|]. injection Hp0 as <-.
+    unfold same_strands in E4. rewrite forallb_forall in E4. apply Forall_forall.
+    intros q Hq. specialize (E4 q Hq). lia.
+  - intros x Hx. unfold rotated_bases in E5. rewrite forallb_zrange in E5.
+    specialize (E5 x ltac:(lia)). apply eqb_true_iff_l in E5.
+    rewrite <- !in_loc_spec. assumption.
+Qed.
+
+Lemma loc_eqb_eq a b : loc_eqb a b = true -> a = b.
+Proof.
+  revert b. induction a as [|p a IH]; intros [|q b]; simpl; try discriminate; [reflexivity|].
+  intros H. apply andb_true_iff in H. destruct H as [H1 H2]. apply IH in H2. subst b.
+  unfold part_eqb in H1. destruct p, q; cbn in *. f_equal. f_equal; lia.
+Qed.
+
+Lemma check_offset_line_sound a off out : check_offset_line a off out = 0 ->
+  out = Ok (map (fun p => mkPart (ps p + off) (pe p + off) (pst p)) a).
+Proof.
+  unfold check_offset_line. destruct out as [r|k].
+  2:{ destruct (lstart a + off <? 0); discriminate. }
+  destruct (loc_eqb r _) eqn:E; [|discriminate]. intros _. apply loc_eqb_eq in E. subst r. reflexivity.
+Qed.
+
+(* ---- extend ---- *)
+(* x lies within the distance d of the location's two ends (transcription order), on a line *)
+Definition near_line (a : loc) (d x : Z) : Prop :=
+  (start_pt a - d <= x < start_pt a) \/ (end_pt a <= x < end_pt a + d).
+(* ... and on a ring of length N: some lift of x does *)
+Definition near_ring (N : Z) (a : loc) (d x : Z) : Prop :=
+  exists k, -2 <= k <= 2 /\ near_line a d (x + k * N).
+
+Lemma within_line_spec a d x : within_line a d x = true <-> near_line a d x.
+Proof. unfold within_line, near_line. lia. Qed.
+
+Lemma within_ring_spec N a d x : within_ring N a d x = true <-> near_ring N a d x.
+Proof.
+  unfold within_ring, near_ring. rewrite existsb_exists. split.
+  - intros [k [Hk H]]. exists k. split; [simpl in Hk; lia|]. apply within_line_spec. assumption.
+  - intros [k [Hk H]]. exists k. split; [simpl; lia|]. apply within_line_spec. assumption.
+Qed.
+
+Lemma check_extend_sound a d N circ out : check_extend a d N circ out = 0 ->
+  exists r, out = Ok r /\
+    (r <> [] /\ Forall (fun p => 0 <= ps p /\ ps p < pe p /\ pe p <= N) r) /\
+    pairwise_disjoint r /\
+    (forall x, 0 <= x < N ->
+       (base_of r x <-> base_of a x \/ (if circ then near_ring N a d x else near_line a d x))).
+Proof.
+  unfold check_extend. destruct out as [r|k]; [|discriminate].
+  destruct (wf_locb N r) eqn:E1; cbn [negb]; [|discriminate].
+  destruct (extended_bases N circ a d r) eqn:E2; cbn [negb]; [|discriminate].
+  destruct (disjoint_parts r) eqn:E3; cbn [negb]; [|discriminate].
+  intros _. exists r. split; [reflexivity|]. split; [apply wf_locb_spec; assumption|].
+  split; [apply disjoint_parts_spec; assumption|].
+  intros x Hx. unfold extended_bases in E2. rewrite forallb_zrange in E2.
+  specialize (E2 x ltac:(lia)). apply eqb_true_iff_l in E2.
+  rewrite <- in_loc_spec, E2, orb_true_iff, in_loc_spec.
+  destruct circ; [rewrite within_ring_spec|rewrite within_line_spec]; reflexivity.
+Qed.
+
+(* ---------- ordering: Feature.__lt__ and CDSCollection.__lt__ ---------- *)
+Lemma pair_lt_irrefl k : pair_lt k k = false.
+Proof. unfold pair_lt. lia. Qed.
+Lemma pair_lt_trans a b c : pair_lt a b = true -> pair_lt b c = true -> pair_lt a c = true.
+Proof. unfold pair_lt. lia. Qed.
+Lemma pair_lt_asym a b : pair_lt a b = true -> pair_lt b a = false.
+Proof. unfold pair_lt. lia. Qed.
+Lemma pair_lt_incomp_trans a b c :
+  pair_lt a b = false -> pair_lt b a = false -> pair_lt b c = false -> pair_lt c b = false ->
+  pair_lt a c = false /\ pair_lt c a = false.
+Proof. unfold pair_lt. lia. Qed.
+
+Lemma feature_lt_key a b ka kb : cmp_key 1 a = Ok ka -> cmp_key 1 b = Ok kb ->
+  feature_lt false a b = Ok (pair_lt ka kb).
+Proof. intros Ha Hb. unfold feature_lt. rewrite Ha, Hb. cbn [bind]. rewrite andb_false_r. reflexivity. Qed.
+
+Lemma cmp_key_plain s l : bridges l = false -> cmp_key s l = Ok (lstart l, s * llen l).
+Proof. intros H. unfold cmp_key. rewrite H. reflexivity. Qed.
+
+(* Feature.__lt__ (left feature not of type "source") is a strict weak order on all locations
+   whose sort key exists: irreflexive, asymmetric, transitive, incomparability transitive *)
+Definition flt (a b : loc) : Prop := feature_lt false a b = Ok true.
+Lemma feature_order a b c ka kb kc :
+  cmp_key 1 a = Ok ka -> cmp_key 1 b = Ok kb -> cmp_key 1 c = Ok kc ->
+  ~ flt a a /\ (flt a b -> ~ flt b a) /\ (flt a b -> flt b c -> flt a c) /\
+  (~ flt a b -> ~ flt b a -> ~ flt b c -> ~ flt c b -> ~ flt a c /\ ~ flt c a).
+Proof.
+  intros Ha Hb Hc. unfold flt.
+  rewrite (feature_lt_key a a ka ka Ha Ha), (feature_lt_key a b ka kb Ha Hb),
+          (feature_lt_key b a kb ka Hb Ha), (feature_lt_key b c kb kc Hb Hc),
+          (feature_lt_key c b kc kb Hc Hb), (feature_lt_key a c ka kc Ha Hc),
+          (feature_lt_key c a kc ka Hc Ha).
+  rewrite pair_lt_irrefl.
+  split; [|split; [|split]].
+  - intros H. discriminate.
+  - intros H1 H2. injection H1 as H1. injection H2 as H2. rewrite (pair_lt_asym _ _ H1) in H2. discriminate.
+  - intros H1 H2. injection H1 as H1. injection H2 as H2. rewrite (pair_lt_trans _ _ _ H1 H2). reflexivity.
+  - intros N1 N2 N3 N4.
+    assert (E1 : pair_lt ka kb = false) by (destruct (pair_lt ka kb); [exfalso; apply N1|]; reflexivity).
+    assert (E2 : pair_lt kb ka = false) by (destruct (pair_lt kb ka); [exfalso; apply N2|]; reflexivity).
+    assert (E3 : pair_lt kb kc = false) by (destruct (pair_lt kb kc); [exfalso; apply N3|]; reflexivity).
+    assert (E4 : pair_lt kc kb = false) by (destruct (pair_lt kc kb); [exfalso; apply N4|]; reflexivity).
+    destruct (pair_lt_incomp_trans ka kb kc E1 E2 E3 E4) as [H1 H2]. rewrite H1, H2. split; discriminate.
+Qed.
+
+(* a "source" feature is "less than" itself: with the tie rule the relation is not irreflexive *)
+Lemma feature_source_refuted : exists a, feature_lt true a a = Ok true.
+Proof. exists [mkPart 0 10 1]. reflexivity. Qed.
+
+(* CDSCollection.__lt__ is not asymmetric on well-formed collection locations: the whole record
+   and a span over the origin are each "less than" the other (containment shortcut one way,
+   negative start key the other way) *)
+Lemma collection_order_refuted : exists N a b,
+  is_spanb N a = true /\ is_spanb N b = true /\
+  collection_lt a b = Ok true /\ collection_lt b a = Ok true.
+Proof.
+  exists 10, [mkPart 0 10 1], [mkPart 7 10 1; mkPart 0 2 1]. repeat split; reflexivity.
+Qed.
+
+
+(* ====================================================================================
+   connect_locations on a ring: two single-part inputs (and the one-input / idempotence cases)
+   ==================================================================================== *)
+Definition wfp (N : Z) (p : part) : Prop := 0 <= ps p /\ ps p < pe p /\ pe p <= N.
+Definition ordered (a b : part) : Prop := ps a < ps b \/ (ps a = ps b /\ pe a <= pe b).
+Definition fwd (p : part) : part := mkPart (ps p) (pe p) 1.
+
+Lemma key_lt_single a b : key_lt [a] [b] = (ps a <? ps b) || ((ps a =? ps b) && (pe a <? pe b)).
+Proof. reflexivity. Qed.
+
+Lemma wrapping_shorter_pair N a b : ordered a b ->
+  wrapping_shorter [[a]; [b]] N = (N / 2 <? ps b - pe a) /\
+  (wrapping_shorter [[b]; [a]] N = (N / 2 <? ps b - pe a) \/
+   (ps a = ps b /\ pe a = pe b /\ wrapping_shorter [[b]; [a]] N = (N / 2 <? ps a - pe b))).
+Proof.
+  intros Ho. unfold wrapping_shorter, sort_by. cbn [existsb bridges is_compound orb fold_left insert_by].
+  rewrite !key_lt_single. unfold ordered in Ho. split.
+  - destruct ((ps b <? ps a) || ((ps b =? ps a) && (pe b <? pe a))) eqn:E; [lia|].
+    cbn [existsb lstart lend map lmin lmax fold_left ps pe orb]. rewrite orb_false_r. reflexivity.
+  - destruct ((ps a <? ps b) || ((ps a =? ps b) && (pe a <? pe b))) eqn:E.
+    + left. cbn [existsb lstart lend map lmin lmax fold_left ps pe orb]. rewrite orb_false_r. reflexivity.
+    + right. split; [lia|]. split; [lia|].
+      cbn [existsb lstart lend map lmin lmax fold_left ps pe orb]. rewrite orb_false_r. reflexivity.
+Qed.
+
+Lemma split_go_pair N a b : 0 < N -> wfp N a -> wfp N b -> N / 2 < ps b - pe a ->
+  split_sections_go [[a]; [b]] N = Ok ([[fwd b]], [[fwd a]]) /\
+  split_sections_go [[b]; [a]] N = Ok ([[fwd b]], [[fwd a]]).
+Proof.
+  intros HN [Ha0 [Ha1 Ha2]] [Hb0 [Hb1 Hb2]] Hgap.
+  assert (Hdiv : N = 2 * (N / 2) + N mod 2) by (apply Z.div_mod; lia).
+  assert (Hmod : 0 <= N mod 2 < 2) by (apply Z.mod_pos_bound; lia).
+  assert (Ea : (ps a <? N - pe a) = true) by lia.
+  assert (Eb : (ps b <? N - pe b) = false) by lia.
+  assert (Fa : (pe a <? ps a) = false) by lia.
+  assert (Fb : (pe b <? ps b) = false) by lia.
+  split; cbn [split_sections_go bridges is_compound bind lstart lend map lmin lmax fold_left]; unfold mkFL;
+    rewrite ?Fa, ?Fb; cbn [bind]; rewrite ?Ea, ?Eb; cbn [bind]; rewrite ?Ea, ?Eb; reflexivity.
+Qed.
+
+Definition wrapped_pair (N : Z) (a b : part) : loc := [mkPart (ps b) N 1; mkPart 0 (pe a) 1].
+Definition hull_pair (a b : part) : loc :=
+  [mkPart (ps a) (Z.max (pe a) (pe b)) (if pst a =? pst b then pst a else S_None)].
+
+Lemma connect_line_single p : ps p < pe p -> connect_line [[p]] = Ok [p].
+Proof.
+  intros H. unfold connect_line. cbn [existsb bridges is_compound orb mapM reduce_parts bind].
+  unfold hull, mkFL. cbn [map lstart lend lmin lmax fold_left common_strand forallb lstrand].
+  destruct (pe p <? ps p) eqn:E; [lia|]. cbn [bind]. destruct p; reflexivity.
+Qed.
+
+Lemma merge_tail_wrap N a b : 0 < N -> wfp N a -> wfp N b -> N / 2 < ps b - pe a ->
+  (let location := [fwd b] in let other := [fwd a] in
+    if is_compound location || is_compound other then Err E_Assert else
+    if dist location other (Some N) <? dist location other None then
+      do up <- (if lstart other <? lstart location then mkFL (lstart location) N 1
+                else mkFL (lstart other) N 1);
+      do lo <- (if lstart other <? lstart location then mkFL 0 (lend other) 1
+                else mkFL 0 (lend location) 1);
+      Ok [[up; lo]]
+    else Ok [location; other]) = Ok [wrapped_pair N a b].
+Proof.
+  intros HN [Ha0 [Ha1 Ha2]] [Hb0 [Hb1 Hb2]] Hgap.
+  assert (Hdiv : N = 2 * (N / 2) + N mod 2) by (apply Z.div_mod; lia).
+  assert (Hmod : 0 <= N mod 2 < 2) by (apply Z.mod_pos_bound; lia).
+  cbn zeta. cbn [is_compound orb].
+  assert (Hov : part_overlap (fwd b) (fwd a) = false).
+  { unfold part_overlap, in_part, fwd. cbn [ps pe]. lia. }
+  assert (Hd1 : dist [fwd b] [fwd a] (Some N) = Z.min (ps a + N - pe b) (ps b - pe a)).
+  { unfold dist, overlap. cbn [existsb]. rewrite Hov. cbn [orb].
+    rewrite pdist_ring_spec; unfold wf_part, fwd; cbn [ps pe]; try lia.
+    fold (fwd a). fold (fwd b). rewrite Hov. unfold wrap_gap, gap, fwd. cbn [ps pe].
+    destruct (pe b <=? ps a) eqn:E; [lia|]. reflexivity. }
+  assert (Hd2 : dist [fwd b] [fwd a] None = ps b - pe a).
+  { unfold dist, overlap. cbn [existsb]. rewrite Hov. cbn [orb]. unfold pdist. rewrite Hov.
+    rewrite pdist_line_spec; unfold wf_part, fwd; cbn [ps pe]; try lia.
+    fold (fwd a). fold (fwd b). rewrite Hov. unfold gap, fwd. cbn [ps pe].
+    destruct (pe b <=? ps a) eqn:E; [lia|]. reflexivity. }
+  rewrite Hd1, Hd2.
+  destruct (Z.min (ps a + N - pe b) (ps b - pe a) <? ps b - pe a) eqn:E; [|lia].
+  cbn [lstart lend map lmin lmax fold_left fwd ps pe].
+  destruct (ps a <? ps b) eqn:E2; [|lia]. unfold mkFL.
+  destruct (N <? ps b) eqn:E3; [lia|]. destruct (pe a <? 0) eqn:E4; [lia|]. reflexivity.
+Qed.
+
+Lemma merge_over_origin_wrap N a b : 0 < N -> wfp N a -> wfp N b -> ordered a b ->
+  N / 2 < ps b - pe a ->
+  merge_over_origin [[a]; [b]] N = Ok [wrapped_pair N a b] /\
+  merge_over_origin [[b]; [a]] N = Ok [wrapped_pair N a b].
+Proof.
+  intros HN Ha Hb Ho Hgap.
+  destruct (wrapping_shorter_pair N a b Ho) as [W1 W2].
+  destruct (split_go_pair N a b HN Ha Hb Hgap) as [S1 S2].
+  assert (Hg : (N / 2 <? ps b - pe a) = true) by lia.
+  assert (W2' : wrapping_shorter [[b]; [a]] N = true).
+  { destruct W2 as [W2|[E1 [E2 _]]]; [rewrite W2; assumption|].
+    destruct Ha as [? [? ?]], Hb as [? [? ?]]. assert (0 <= N / 2) by (apply Z.div_pos; lia). lia. }
+  rewrite Hg in W1.
+  assert (La : ps (fwd a) < pe (fwd a)) by (destruct Ha as [? [? ?]]; cbn; lia).
+  assert (Lb : ps (fwd b) < pe (fwd b)) by (destruct Hb as [? [? ?]]; cbn; lia).
+  split; unfold merge_over_origin, split_sections.
+  - rewrite W1. cbn [negb]. rewrite S1. cbn [bind].
+    rewrite (connect_line_single _ Lb), (connect_line_single _ La). cbn [bind].
+    exact (merge_tail_wrap N a b HN Ha Hb Hgap).
+  - rewrite W2'. cbn [negb]. rewrite S2. cbn [bind].
+    rewrite (connect_line_single _ Lb), (connect_line_single _ La). cbn [bind].
+    exact (merge_tail_wrap N a b HN Ha Hb Hgap).
+Qed.
+
+Lemma merge_over_origin_nowrap N a b : 0 < N -> wfp N a -> wfp N b -> ordered a b ->
+  ps b - pe a <= N / 2 ->
+  merge_over_origin [[a]; [b]] N = Ok [hull_pair a b] /\
+  merge_over_origin [[b]; [a]] N = Ok [hull_pair a b].
+Proof.
+  intros HN Ha Hb Ho Hgap.
+  destruct (wrapping_shorter_pair N a b Ho) as [W1 W2].
+  assert (Hg : (N / 2 <? ps b - pe a) = false) by lia.
+  assert (W2' : wrapping_shorter [[b]; [a]] N = false).
+  { destruct W2 as [W2|[E1 [E2 W2]]]; [rewrite W2; assumption|]. rewrite W2.
+    destruct Ha as [? [? ?]], Hb as [? [? ?]]. assert (0 <= N / 2) by (apply Z.div_pos; lia). lia. }
+  rewrite Hg in W1. destruct Ha as [Ha0 [Ha1 Ha2]], Hb as [Hb0 [Hb1 Hb2]]. unfold ordered in Ho.
+  split; unfold merge_over_origin, split_sections.
+  - rewrite W1. cbn [negb bind]. unfold connect_line.
+    cbn [existsb bridges is_compound orb mapM reduce_parts bind].
+    unfold hull, mkFL. cbn [map lstart lend lmin lmax fold_left common_strand forallb lstrand ps pe andb].
+    rewrite andb_true_r.
+    destruct (Z.max (pe a) (pe b) <? Z.min (ps a) (ps b)) eqn:E; [lia|]. cbn [bind].
+    unfold hull_pair. rewrite (Z.min_l (ps a) (ps b)) by lia.
+    rewrite (Z.eqb_sym (pst b) (pst a)). reflexivity.
+  - rewrite W2'. cbn [negb bind]. unfold connect_line.
+    cbn [existsb bridges is_compound orb mapM reduce_parts bind].
+    unfold hull, mkFL. cbn [map lstart lend lmin lmax fold_left common_strand forallb lstrand ps pe andb].
+    rewrite andb_true_r.
+    destruct (Z.max (pe b) (pe a) <? Z.min (ps b) (ps a)) eqn:E; [lia|]. cbn [bind].
+    unfold hull_pair. rewrite (Z.min_r (ps b) (ps a)) by lia. rewrite (Z.max_comm (pe b) (pe a)).
+    destruct (pst a =? pst b) eqn:E2; [|reflexivity]. assert (E3 : pst a = pst b) by lia. rewrite E3. reflexivity.
+Qed.
+
+Definition pair_result (N : Z) (a b : part) : loc :=
+  if N / 2 <? ps b - pe a then wrapped_pair N a b else hull_pair a b.
+
+Lemma connect_ring_pair N a b : 0 < N -> wfp N a -> wfp N b -> ordered a b ->
+  connect_locations [[a]; [b]] (Some N) = Ok (pair_result N a b) /\
+  connect_locations [[b]; [a]] (Some N) = Ok (pair_result N a b).
+Proof.
+  intros HN Ha Hb Ho. unfold connect_locations, connect_fuel, pair_result.
+  cbn [length Nat.mul Nat.add]. change 12%nat with (S 11). generalize 11%nat as fuel. intros fuel.
+  cbn [connect existsb bridges is_compound orb mapM reduce_parts bind].
+  destruct (N <=? 0) eqn:EN; [lia|].
+  unfold loc in *.
+  destruct (N / 2 <? ps b - pe a) eqn:Eg.
+  - destruct (merge_over_origin_wrap N a b HN Ha Hb Ho ltac:(lia)) as [M1 M2].
+    rewrite M1, M2. cbn [bind]. split; reflexivity.
+  - destruct (merge_over_origin_nowrap N a b HN Ha Hb Ho ltac:(lia)) as [M1 M2].
+    rewrite M1, M2. cbn [bind]. split; reflexivity.
+Qed.
+
+Lemma connect_ring_single N p : 0 < N -> ps p < pe p ->
+  connect_locations [[p]] (Some N) = Ok [p].
+Proof.
+  intros HN Hp. unfold connect_locations, connect_fuel.
+  cbn [length Nat.mul Nat.add]. change 10%nat with (S 9). generalize 9%nat as fuel. intros fuel.
+  cbn [connect existsb bridges is_compound orb mapM reduce_parts bind].
+  destruct (N <=? 0) eqn:EN; [lia|].
+  unfold merge_over_origin, split_sections, wrapping_shorter, sort_by.
+  cbn [existsb bridges is_compound orb fold_left insert_by negb bind].
+  unfold loc in *. rewrite (connect_line_single p Hp). reflexivity.
+Qed.
+
+Lemma connect_ring_wrapped_idem N s e : 0 < e -> e <= s -> s < N ->
+  connect_locations [[mkPart s N 1; mkPart 0 e 1]] (Some N) = Ok [mkPart s N 1; mkPart 0 e 1].
+Proof.
+  intros He Hes HsN. unfold connect_locations, connect_fuel.
+  cbn [length Nat.mul Nat.add]. change 10%nat with (S 9). generalize 9%nat as fuel. intros fuel. cbn [connect existsb].
+  assert (Hb : bridges [mkPart s N 1; mkPart 0 e 1] = true).
+  { unfold bridges. cbn [is_compound lstrand forallb pst Z.eqb andb orb check_order ps]. 
+    replace (1 =? 1) with true by reflexivity. cbn [andb orb].
+    replace (1 =? 1) with true by reflexivity. cbn [orb check_order ps]. 
+    replace (1 =? 1) with true by reflexivity. destruct (0 <? s) eqn:E; [reflexivity|lia]. }
+  rewrite Hb. cbn [orb mapM]. unfold reduce_parts. rewrite Hb.
+  destruct (N <=? 0) eqn:EN; [lia|].
+  unfold split_bridging. cbn [is_compound negb all_same_strand forallb pst lstrand].
+  replace (1 =? 1) with true by reflexivity. cbn [andb negb].
+  replace (1 =? -1) with false by reflexivity.
+  cbn [split_fwd ps]. destruct (s <? 0) eqn:E1; [lia|]. cbn [rev app nonempty andb negb].
+  unfold valid_split, hull_part. cbn [nonempty andb map ps pe lmin lmax fold_left].
+  assert (Hov : part_overlap (mkPart 0 e 0) (mkPart s N 0) = false).
+  { unfold part_overlap, in_part. cbn [ps pe]. lia. }
+  rewrite Hov. cbn [negb andb sorted_le]. replace (1 =? -1) with false by reflexivity.
+  cbn [negb bind]. unfold mkFL. cbn [map ps pe lmin lmax fold_left]. destruct (N <? s) eqn:E2; [lia|]. destruct (e <? 0) eqn:E3; [lia|].
+  cbn [bind]. reflexivity.
+Qed.
+
+(* ---- the result for a pair is the shortest covering arc (when one shorter than N/2 exists) ---- *)
+Lemma arc_mod N s x : 0 < N -> 0 <= s < N -> 0 <= x < N ->
+  (x - s) mod N = if s <=? x then x - s else x - s + N.
+Proof.
+  intros HN Hs Hx. destruct (s <=? x) eqn:E.
+  - apply Z.mod_small. lia.
+  - rewrite <- (Z.mod_add (x - s) 1 N) by lia. rewrite Z.mod_small by lia. lia.
+Qed.
+
+(* an arc shorter than the ring that covers every base of an interval covers it in one piece *)
+Lemma arc_covers_interval N s len u v : 0 < N -> 0 <= s < N -> len < N -> 0 <= u -> u < v -> v <= N ->
+  (forall x, u <= x < v -> arc N s len x) ->
+  (s <= u /\ v <= s + len) \/ (v <= s /\ v + N <= s + len).
+Proof.
+  intros HN Hs Hlen Hu Huv Hv Hcov.
+  pose proof (Hcov u ltac:(lia)) as Cu. pose proof (Hcov (v - 1) ltac:(lia)) as Cv.
+  unfold arc in *. rewrite arc_mod in Cu, Cv by lia.
+  destruct (s <=? u) eqn:E1.
+  - left. destruct (s <=? v - 1) eqn:E2; lia.
+  - right. destruct (s <=? v - 1) eqn:E2; [|lia].
+    exfalso. pose proof (Hcov (s - 1) ltac:(lia)) as Cs. rewrite arc_mod in Cs by lia.
+    destruct (s <=? s - 1) eqn:E3; lia.
+Qed.
+
+Lemma pair_result_shortest N a b : 0 < N -> wfp N a -> wfp N b -> ordered a b ->
+  forall s len, 0 <= s < N -> 2 * len < N ->
+    (forall x, base_of [a] x \/ base_of [b] x -> arc N s len x) ->
+    llen (pair_result N a b) <= len.
+Proof.
+  intros HN [Ha0 [Ha1 Ha2]] [Hb0 [Hb1 Hb2]] Ho s len Hs Hlen Hcov.
+  assert (Hdiv : N = 2 * (N / 2) + N mod 2) by (apply Z.div_mod; lia).
+  assert (Hmod : 0 <= N mod 2 < 2) by (apply Z.mod_pos_bound; lia).
+  assert (Ca : (s <= ps a /\ pe a <= s + len) \/ (pe a <= s /\ pe a + N <= s + len)).
+  { apply (arc_covers_interval N s len (ps a) (pe a)); try lia.
+    intros x Hx. apply Hcov. left. exists a. split; [left; reflexivity|lia]. }
+  assert (Cb : (s <= ps b /\ pe b <= s + len) \/ (pe b <= s /\ pe b + N <= s + len)).
+  { apply (arc_covers_interval N s len (ps b) (pe b)); try lia.
+    intros x Hx. apply Hcov. right. exists b. split; [left; reflexivity|lia]. }
+  unfold pair_result, ordered in *.
+  destruct (N / 2 <? ps b - pe a) eqn:Eg; unfold wrapped_pair, hull_pair; cbn [llen fold_right ps pe]; lia.
+Qed.
+
+Lemma pair_result_props N a b : 0 < N -> wfp N a -> wfp N b -> ordered a b ->
+  is_span N (pair_result N a b) /\
+  (forall x, base_of [a] x \/ base_of [b] x -> base_of (pair_result N a b) x) /\
+  llen (pair_result N a b) <= Z.max (pe a) (pe b) - ps a /\
+  connect_locations [pair_result N a b] (Some N) = Ok (pair_result N a b).
+Proof.
+  intros HN [Ha0 [Ha1 Ha2]] [Hb0 [Hb1 Hb2]] Ho.
+  assert (Hdiv : N = 2 * (N / 2) + N mod 2) by (apply Z.div_mod; lia).
+  assert (Hmod : 0 <= N mod 2 < 2) by (apply Z.mod_pos_bound; lia).
+  unfold pair_result, ordered in *.
+  destruct (N / 2 <? ps b - pe a) eqn:Eg; unfold wrapped_pair, hull_pair.
+  - split; [right; eexists; eexists; split; [reflexivity|cbn [ps pe]; lia]|].
+    split; [|split; [cbn [llen fold_right ps pe]; lia|apply connect_ring_wrapped_idem; lia]].
+    intros x [[p [[<-|[]] Hx]]|[p [[<-|[]] Hx]]].
+    + eexists. split; [right; left; reflexivity|cbn [ps pe]; lia].
+    + eexists. split; [left; reflexivity|cbn [ps pe]; lia].
+  - split; [left; eexists; split; [reflexivity|cbn [ps pe]; lia]|].
+    split; [|split; [cbn [llen fold_right ps pe]; lia|apply connect_ring_single; cbn [ps pe]; lia]].
+    intros x [[p [[<-|[]] Hx]]|[p [[<-|[]] Hx]]]; eexists; (split; [left; reflexivity|cbn [ps pe]; lia]).
+Qed.
+
+
+(* ====================================================================================
+   Record.extend_location of a single part on a ring; offset_location of a multi-part location
+   on a linear record
+   ==================================================================================== *)
+Lemma single_rev p : (if pst p =? -1 then rev [p] else [p]) = [p].
+Proof. destruct (pst p =? -1); reflexivity. Qed.
+
+(* (A) nothing passes a record edge *)
+Lemma extend_ring_single_inside p d N :
+  wfp N p -> 0 <= d -> 0 <= ps p - d -> pe p + d <= N ->
+  extend_location [p] d N true = Ok [mkPart (ps p - d) (pe p + d) (pst p)].
+Proof.
+  intros [H0 [Hlt HN]] Hd Hs He. unfold extend_location.
+  change (lstrand [p]) with (pst p). rewrite single_rev.
+  cbn [last_opt rev app andb ps pe].
+  destruct (ps p - d <? 0) eqn:E0; [lia|]. cbn [andb].
+  cbn [length merge_ends last_opt rev app tl removelast]. rewrite E0. cbn [andb].
+  unfold mkFL. cbn [ps pe pst].
+  destruct (pe p <? Z.max 0 (ps p - d)) eqn:E1; [lia|]. cbn [bind last_opt rev app ps pe pst].
+  destruct (N <? pe p + d) eqn:E2; [lia|]. cbn [andb].
+  destruct (Z.min (pe p + d) N <? Z.max 0 (ps p - d)) eqn:E3; [lia|].
+  cbn [bind removelast app length merge_ends last_opt rev].
+  rewrite Z.max_r by lia. rewrite Z.min_l by lia. reflexivity.
+Qed.
+
+Definition order_by_strand (st : Z) (l : list part) : list part := if st =? -1 then rev l else l.
+
+(* (B) the start passes the origin, the two ends do not meet *)
+Lemma extend_ring_single_wrap_start p d N :
+  wfp N p -> 0 <= d -> ps p - d < 0 -> pe p + d < ps p - d + N ->
+  extend_location [p] d N true =
+    Ok (order_by_strand (pst p) [mkPart (ps p - d + N) N (pst p); mkPart 0 (pe p + d) (pst p)]).
+Proof.
+  intros [H0 [Hlt HN]] Hd Hs He. unfold extend_location, order_by_strand.
+  change (lstrand [p]) with (pst p). rewrite single_rev.
+  cbn [last_opt rev app andb ps pe].
+  destruct (ps p - d <? 0) eqn:E0; [|lia]. cbn [andb].
+  destruct (ps p - d + N <=? pe p + d) eqn:E00; [lia|].
+  cbn [length merge_ends last_opt rev app tl removelast]. rewrite E0. cbn [andb].
+  unfold mkFL. cbn [ps pe pst].
+  destruct (pe p <? 0) eqn:E1; [lia|]. cbn [bind].
+  destruct (N <? Z.min (N + (ps p - d)) N) eqn:E2; [lia|]. cbn [bind last_opt rev app ps pe pst].
+  destruct (N <? pe p + d) eqn:E3; [lia|]. cbn [andb].
+  destruct (Z.min (pe p + d) N <? 0) eqn:E4; [lia|].
+  cbn [bind removelast app length merge_ends last_opt rev tl].
+  assert (Hov : part_overlap (mkPart (Z.min (N + (ps p - d)) N) N (pst p))
+                             (mkPart 0 (Z.min (pe p + d) N) (pst p)) = false).
+  { unfold part_overlap, in_part. cbn [ps pe]. lia. }
+  rewrite Hov. rewrite Z.min_l by lia. rewrite Z.min_l by lia.
+  replace (N + (ps p - d)) with (ps p - d + N) by lia. reflexivity.
+Qed.
+
+(* (C) the end passes the end of the record, the two ends do not meet *)
+Lemma extend_ring_single_wrap_end p d N :
+  wfp N p -> 0 <= d -> 0 <= ps p - d -> N < pe p + d -> pe p + d < ps p - d + N ->
+  extend_location [p] d N true =
+    Ok (order_by_strand (pst p) [mkPart (ps p - d) N (pst p); mkPart 0 (pe p + d - N) (pst p)]).
+Proof.
+  intros [H0 [Hlt HN]] Hd Hs He Hm. unfold extend_location, order_by_strand.
+  change (lstrand [p]) with (pst p). rewrite single_rev.
+  cbn [last_opt rev app andb ps pe].
+  destruct (ps p - d <? 0) eqn:E0; [lia|]. cbn [andb].
+  cbn [length merge_ends last_opt rev app tl removelast]. rewrite E0. cbn [andb].
+  unfold mkFL. cbn [ps pe pst].
+  destruct (pe p <? Z.max 0 (ps p - d)) eqn:E1; [lia|]. cbn [bind last_opt rev app ps pe pst].
+  destruct (N <? pe p + d) eqn:E3; [|lia]. cbn [andb].
+  destruct (N <? Z.max 0 (ps p - d)) eqn:E4; [lia|]. cbn [bind].
+  destruct (Z.min (pe p + d - N) N <? 0) eqn:E5; [lia|].
+  cbn [bind removelast app length merge_ends last_opt rev tl].
+  assert (Hov : part_overlap (mkPart (Z.max 0 (ps p - d)) N (pst p))
+                             (mkPart 0 (Z.min (pe p + d - N) N) (pst p)) = false).
+  { unfold part_overlap, in_part. cbn [ps pe]. lia. }
+  rewrite Hov. rewrite Z.max_r by lia. rewrite Z.min_l by lia. reflexivity.
+Qed.
+
+(* ---------- offset of a multi-part location on a linear record ---------- *)
+Definition shift_part (off : Z) (p : part) : part := mkPart (ps p + off) (pe p + off) (pst p).
+
+Lemma offset_line_multi l off : off <> 0 ->
+  Forall (fun p => ps p < pe p /\ 0 <= ps p + off) l ->
+  offset_location l off None = Ok (map (shift_part off) l).
+Proof.
+  intros Hoff H. unfold offset_location, shifted.
+  destruct (off =? 0) eqn:E; [lia|].
+  induction H as [|p l [Hp1 Hp2] _ IH]; [reflexivity|].
+  cbn [mapM map]. destruct (negb (ps p + off <? pe p + off)) eqn:E1; [lia|].
+  destruct (false || (0 <=? ps p + off) && (0 <? pe p + off)) eqn:E2; [|lia].
+  cbn [bind]. rewrite IH. reflexivity.
+Qed.
+
+Lemma shift_bases l off x : base_of (map (shift_part off) l) (x + off) <-> base_of l x.
+Proof.
+  unfold base_of. split.
+  - intros [q [Hq Hx]]. apply in_map_iff in Hq. destruct Hq as [p [<- Hp]]. exists p. cbn in Hx. split; [assumption|lia].
+  - intros [p [Hp Hx]]. exists (shift_part off p). split; [apply in_map; assumption|cbn; lia].
+Qed.
+
+Lemma shift_llen l off : llen (map (shift_part off) l) = llen l.
+Proof. induction l as [|p l IH]; [reflexivity|]. cbn [map llen fold_right] in *. unfold llen in IH. rewrite IH. cbn. lia. Qed.
+
+(* (D) both ends pass the record edges and meet: the whole record *)
+Lemma extend_ring_single_full p d N :
+  wfp N p -> 0 <= d -> ps p - d < 0 -> 0 <= ps p - d + N -> ps p - d + N <= pe p + d ->
+  extend_location [p] d N true = Ok [mkPart 0 N (pst p)].
+Proof.
+  intros [H0 [Hlt HN]] Hd Hs Hs2 He. unfold extend_location.
+  change (lstrand [p]) with (pst p). rewrite single_rev.
+  cbn [last_opt rev app andb ps pe].
+  destruct (ps p - d <? 0) eqn:E0; [|lia]. cbn [andb].
+  destruct (ps p - d + N <=? pe p + d) eqn:E00; [|lia].
+  unfold mkFL. destruct (pe p <? 0) eqn:E1; [lia|]. cbn [bind set_first last_opt rev app ps pe].
+  destruct (N <? 0) eqn:E2; [lia|]. cbn [bind set_last removelast app rev].
+  destruct (N <? ps p - d + N) eqn:E3; [lia|]. cbn [bind].
+  assert (Hov : part_overlap (mkPart 0 N (pst p)) (mkPart (ps p - d + N) N (pst p)) = true).
+  { unfold part_overlap, in_part. cbn [ps pe]. lia. }
+  cbn [absorb_upper]. rewrite Hov. cbn [absorb_upper ps pe pst rev app].
+  rewrite (Z.min_l 0 (ps p - d + N)) by lia.
+  assert (Hmod : 0 <= (pe p + d) mod N < N) by (apply Z.mod_pos_bound; lia).
+  destruct (N <? pe p + d) eqn:E4.
+  - destruct ((pe p + d) mod N <? 0) eqn:E5; [lia|]. cbn [bind absorb_lower].
+    assert (Hov2 : part_overlap (mkPart 0 N (pst p)) (mkPart 0 ((pe p + d) mod N) (pst p)) = true).
+    { unfold part_overlap, in_part. cbn [ps pe]. lia. }
+    rewrite Hov2. cbn [absorb_lower ps pe pst app]. rewrite (Z.max_l N) by lia.
+    cbn [bind]. unfold part_eqb. cbn [ps pe pst]. rewrite !Z.eqb_refl. reflexivity.
+  - cbn [bind]. unfold part_eqb. cbn [ps pe pst]. rewrite !Z.eqb_refl. reflexivity.
+Qed.
+
+(* extending a single part on a ring covers exactly the bases within the distance, wrapped *)
+Definition within_ring_of (N : Z) (p : part) (d x : Z) : Prop :=
+  exists k, (k = -1 \/ k = 0 \/ k = 1) /\ ps p - d <= x + k * N < pe p + d.
+
+Lemma extend_ring_single_bases p d N :
+  wfp N p -> 0 <= d -> pe p - ps p + 2 * d < N ->
+  exists r, extend_location [p] d N true = Ok r /\
+    Forall (fun q => pst q = pst p /\ 0 <= ps q /\ ps q < pe q /\ pe q <= N) r /\
+    llen r = pe p - ps p + 2 * d /\
+    (forall x, 0 <= x < N -> (base_of r x <-> within_ring_of N p d x)).
+Proof.
+  intros Hw Hd Hlen. pose proof Hw as [H0 [Hlt HN]].
+  assert (Hcase : (0 <= ps p - d /\ pe p + d <= N) \/ (ps p - d < 0) \/ (0 <= ps p - d /\ N < pe p + d)) by lia.
+  destruct Hcase as [[Ha Hb]|[Ha|[Ha Hb]]].
+  - rewrite (extend_ring_single_inside p d N Hw Hd Ha Hb). eexists. split; [reflexivity|].
+    split; [constructor; [cbn; lia|constructor]|]. split; [unfold llen; cbn [fold_right ps pe]; lia|].
+    intros x Hx. unfold base_of, within_ring_of. split.
+    + intros [q [[<-|[]] Hq]]. cbn in Hq. exists 0. lia.
+    + intros [k [Hk Hq]]. eexists. split; [left; reflexivity|]. cbn. destruct Hk as [-> | [-> | ->]]; lia.
+  - rewrite (extend_ring_single_wrap_start p d N Hw Hd Ha ltac:(lia)). unfold order_by_strand.
+    destruct (pst p =? -1); cbn [rev app]; (eexists; split; [reflexivity|]);
+      (split; [constructor; [cbn; lia|constructor; [cbn; lia|constructor]]|]); (split; [unfold llen; cbn [fold_right ps pe]; lia|]);
+      intros x Hx; unfold base_of, within_ring_of; split.
+    + intros [q [[<-|[<-|[]]] Hq]]; cbn in Hq; [exists 0|exists (-1)]; lia.
+    + intros [k [Hk Hq]]. destruct Hk as [-> | [-> | ->]].
+      * eexists. split; [right; left; reflexivity|cbn; lia].
+      * eexists. split; [left; reflexivity|cbn; lia].
+      * lia.
+    + intros [q [[<-|[<-|[]]] Hq]]; cbn in Hq; [exists (-1)|exists 0]; lia.
+    + intros [k [Hk Hq]]. destruct Hk as [-> | [-> | ->]].
+      * eexists. split; [left; reflexivity|cbn; lia].
+      * eexists. split; [right; left; reflexivity|cbn; lia].
+      * lia.
+  - rewrite (extend_ring_single_wrap_end p d N Hw Hd Ha Hb ltac:(lia)). unfold order_by_strand.
+    destruct (pst p =? -1); cbn [rev app]; (eexists; split; [reflexivity|]);
+      (split; [constructor; [cbn; lia|constructor; [cbn; lia|constructor]]|]); (split; [unfold llen; cbn [fold_right ps pe]; lia|]);
+      intros x Hx; unfold base_of, within_ring_of; split.
+    + intros [q [[<-|[<-|[]]] Hq]]; cbn in Hq; [exists 1|exists 0]; lia.
+    + intros [k [Hk Hq]]. destruct Hk as [-> | [-> | ->]].
+      * lia.
+      * eexists. split; [right; left; reflexivity|cbn; lia].
+      * eexists. split; [left; reflexivity|cbn; lia].
+    + intros [q [[<-|[<-|[]]] Hq]]; cbn in Hq; [exists 0|exists 1]; lia.
+    + intros [k [Hk Hq]]. destruct Hk as [-> | [-> | ->]].
+      * lia.
+      * eexists. split; [left; reflexivity|cbn; lia].
+      * eexists. split; [right; left; reflexivity|cbn; lia].
 Qed.
